@@ -114,11 +114,18 @@ func c04Gen(r *RNG, tier string) []json.RawMessage {
 	reg := registeredDecs()
 	var curHooks []HookSpec
 	var curNest *NestSpec
+	var curCbs []AlignCb
+	var curBetween []BetweenWrite
+	curRenders, curPre := 0, 0
 	add := func(t TableSpec, d DecSpec) {
-		out = append(out, mustJSON(TextSpec{Table: t, Decs: []DecSpec{d}, Hooks: curHooks, Nest: curNest}))
+		out = append(out, mustJSON(C04Spec{TextSpec: TextSpec{Table: t, Decs: []DecSpec{d}, Hooks: curHooks, Nest: curNest},
+			AlignCbs: curCbs, Renders: curRenders, PreRenders: curPre, Between: curBetween}))
 	}
 	k := 0
 	nextReg := func() DecSpec { k++; return reg[k%len(reg)] }
+
+	// the render pass: callbacks of the application that write alignments while the table is being rendered
+	out = append(out, c04PassGen(r, tier, nextReg)...)
 
 	// every assignment of {unset, left, right, centre} to column 0 and to each column, for 1, 2 and 3 columns
 	for ncols := 1; ncols <= 3; ncols++ {
@@ -343,8 +350,17 @@ func c04Gen(r *RNG, tier string) []json.RawMessage {
 		if r.Pct(25) {
 			d = randDecoration(r)
 		}
+		curCbs, curRenders, curPre = nil, 0, 0
+		if c04PlainHistory(ts) && r.Pct(30) {
+			// render-time callbacks writing alignments, further renders through the same wrapper
+			curCbs, curRenders, curPre = c04RandPass(r, ts, nc)
+			if curRenders+curPre > 1 && r.Pct(40) {
+				curBetween = c04RandBetween(r, nc, curRenders)
+			}
+		}
 		add(ts, d)
 		curHooks, curNest = nil, nil
+		curCbs, curBetween, curRenders, curPre = nil, nil, 0, 0
 	}
 	return out
 }
@@ -353,7 +369,7 @@ func init() {
 	register(&Prop{
 		ID:       "C04",
 		Imports:  "From Tab Require Import Run.Glue Run.C04Run.",
-		CaseType: "text_case",
+		CaseType: "c04_case",
 		CaseFn:   "C04_case",
 		ModelFn:  "C04_model",
 		Rule: "the C03 tables crossed with alignment assignments (Column(n).SetProperty(align.PropertyType, Left|Right|Center) for column 0 = all-columns default and each own column) " +
@@ -361,11 +377,12 @@ func init() {
 			"every assignment of {unset,L,R,C} to column 0 and each column for 1, 2 and 3 columns (4^2 + 4^3 + 4^4 = 336) on a fixed hostile grid; every width class x height class on 7 texts, in body and header; random grids to 4x5 with random alignments, sized items, registered and custom decorations; " +
 			"alignment histories: the column-0 default set before the columns exist, rows added, then the default changed, unset (SetProperty(key, nil)) or left alone, for every (early, late) pair with the header absent / first / last, and own settings made early then changed or unset; staged renders through one reused wrapper with shape-preserving changes in between (late cells, same-count second header) on a fifth of the random grids; paddings of 63..300 blanks under every alignment, declared widths / heights of 65..300; " +
 			"items without text declaring every class of width x height (body and header); render, same-size mutation (same width per line, same line count, other bytes) + Update through CellAt / Headers, render again through the same wrapper, for plain and sized items under every alignment; the application's own failing callbacks registered before the Wrap; another table rendered from inside the writer; BuildRenderW's StageFaults / FinalVia / FaultAt / Scribble / PropOps via enrichSpec; " +
+			"THE RENDER PASS: the application's own render-time property callbacks that set, change or clear align.PropertyType on a column (own column or the column-0 default; also a column that does not exist) while the table is being rendered - owners: the table, a column (column 0 included), the text wrapper named as owner, a row (separator and cell-less rows included), a cell, a header cell; on itself / on cells; pre-cell, cell and post-cell time; the column reached through the application's table or through the owner handed to the callback; registered after Wrap, before Wrap or on the empty table; values that change from render to render or from invocation to invocation (nil and 'no write' included); zero to two renders through the wrapper before the registration and one to three afterwards (the last is judged); alignments set, changed or cleared DIRECTLY between two renders through the one wrapper (no callback: every ordered pair of values on the default and on own columns), also combined with callbacks that write later; every owner kind x time x written column x two value histories on the fixed hostile grid, pairs and triples of callbacks in one pass, every ordered pair of values across two renders, small tables, and on about a quarter of the random grids - the callbacks log their writes in execution order and the render is judged (model and oracle) on the built view with those writes applied in Coq (Model/TextPass.v after_callbacks: last write wins, nil clears): the padding must follow the alignments in force when the callbacks have finished; " +
 			"the expected view (texts, effective alignments) is computed from the SPEC alone (TableSpec.SpecView) and the sizes of items that declare them from the spec's declared numbers (not from the library's Cell), not read back from the table under test; " +
 			"multi-line items declaring a width below one of their lines are outside the statement (tagged excluded:..., still compared with the model); a case is non-trivial when the table has at least one column and no excluded item",
-		Exhaustive: "all 336 alignment assignments for <= 3 columns on the fixed grid; all width-class x height-class pairs on 7 body texts and 2 header texts",
+		Exhaustive: "all 336 alignment assignments for <= 3 columns on the fixed grid; all width-class x height-class pairs on 7 body texts and 2 header texts; render-time alignment callbacks: owner kind (9) x time x written column (0..3) x 2 value histories",
 		Gen:        c04Gen,
-		Run:        runTextSpec,
-		Shrink:     shrinkTextJSON,
+		Run:        runC04Spec,
+		Shrink:     shrinkC04JSON,
 	})
 }
